@@ -17,6 +17,7 @@ import (
 	"math"
 	"math/big"
 	"reflect"
+	"strings"
 
 	"github.com/hprose/hprose-golang/v3/internal/convert"
 	"github.com/modern-go/reflect2"
@@ -47,9 +48,26 @@ func (dec *Decoder) stringToBigInt(s string, t reflect.Type) *big.Int {
 	return nil
 }
 
+// exponentTooLarge reports whether s carries an exponent of more than five digits.
+// math/big expands 10**exponent while it parses, so a few bytes such as "1e999999999"
+// would cost hundreds of megabytes and seconds.
+func exponentTooLarge(s string) bool {
+	marks := "eE"
+	if n := strings.TrimLeft(s, "+-"); strings.HasPrefix(n, "0x") || strings.HasPrefix(n, "0X") {
+		marks = "pP"
+	}
+	i := strings.LastIndexAny(s, marks)
+	if i < 0 {
+		return false
+	}
+	return len(strings.TrimLeft(strings.TrimLeft(s[i+1:], "+-"), "0")) > 5
+}
+
 func (dec *Decoder) stringToBigFloat(s string, t reflect.Type) *big.Float {
-	if bf, ok := new(big.Float).SetString(s); ok {
-		return bf
+	if !exponentTooLarge(s) {
+		if bf, ok := new(big.Float).SetString(s); ok {
+			return bf
+		}
 	}
 	typeName := "*big.Float"
 	if t != nil {
@@ -60,8 +78,10 @@ func (dec *Decoder) stringToBigFloat(s string, t reflect.Type) *big.Float {
 }
 
 func (dec *Decoder) stringToBigRat(s string, t reflect.Type) *big.Rat {
-	if bf, ok := new(big.Rat).SetString(s); ok {
-		return bf
+	if !exponentTooLarge(s) {
+		if bf, ok := new(big.Rat).SetString(s); ok {
+			return bf
+		}
 	}
 	dec.decodeStringError(s, t.String())
 	return nil
